@@ -163,6 +163,10 @@ def _split_lines(plain, styles):
   return lines, sts
 
 
+# a carriage return, alone or before a line feed, terminates a line in both formats (WebVTT "line terminator"; SubRip files are
+# commonly CRLF): a bare CR that a writer copies from document text into a payload therefore splits the line for every reader
+_LINE_TERMINATOR = re.compile(r"\r\n|\r|\n")
+
 # ------------------------------------------------------------------------------------------------ SRT
 
 def parse_srt(text, strict_text=True):
@@ -170,7 +174,7 @@ def parse_srt(text, strict_text=True):
     return []
   if not text.endswith("\n"):
     raise GrammarError("file:no-final-newline", text.count("\n") + 1, "")
-  lines = text.split("\n")[:-1]
+  lines = _LINE_TERMINATOR.split(text)[:-1]
   cues, i, expect = [], 0, 1
   while i < len(lines):
     if lines[i] == "":
@@ -225,7 +229,7 @@ def parse_vtt(text):
     raise GrammarError("file:header", 1, text[:20])
   if text != "WEBVTT\n\n" and not text.endswith("\n"):
     raise GrammarError("file:no-final-newline", text.count("\n") + 1, "")
-  lines = text.split("\n")
+  lines = _LINE_TERMINATOR.split(text)
   if lines[-1] == "":
     lines = lines[:-1]
   if lines[0] not in ("WEBVTT",) and not re.match(r"^WEBVTT[ \t]", lines[0]):
@@ -349,6 +353,7 @@ def selftest():
       ("1\n00:00:01,000 --> 00:00:02,000\n<b><i>x</b></i>\n", "tags:not-nested"),
       ("1\n00:00:01,000 --> 00:00:02,000\na --> b\n", "payload:arrow"),
       ("1\n00:00:01,000 --> 00:00:02,000\n\nx\n", "payload:empty"),
+      ("1\n00:00:01,000 --> 00:00:02,000\nA\r\rB\n", "cue:counter-expected"),        # CR CR = an empty line: the cue ends after A
       ("1\n00:00:01,000 --> 00:00:02,000\nx\n\n2\n00:00:01,500 --> 00:00:03,000\ny\n", "file:cues-overlap"),
   ]:
     try:
@@ -369,6 +374,7 @@ def selftest():
       ("WEBVTT\n\n00:01.000 --> 00:02.000\na < b\n", "text:unescaped-lt"),
       ("WEBVTT\n\n00:01.000 --> 00:02.000\na --> b\n", "payload:arrow"),
       ("WEBVTT\n\n00:01.000 --> 00:02.000\n<b>x\n", "tags:unclosed"),
+      ("WEBVTT\n\n00:01.000 --> 00:02.000\nA\r\rB\n", "cue:timing-line-expected"),
       ("WEBVTT\n\n00:02.000 --> 00:02.000\nx\n", "cue:begin-not-before-end"),
       ("WEBVTT\n\n00:01.000 --> 00:02.000 line:110%\nx\n", "cue:setting-value"),
       ("WEBVTT\n\n00:01.000 --> 00:02.000\nx\n\nSTYLE\n::cue {\n  color: red;\n}\n", "file:style-after-cue"),
